@@ -47,12 +47,23 @@ class DPT4ByteFloat(DPTNumeric):
             raise ConversionError(f"Could not parse {cls.dpt_name()}", raw=raw) from err
         try:
             # round to 7 digit precision independent of exponent - same value as ETS 5.7 group monitor
-            return round(raw_float, 7 - ceil(log10(abs(raw_float))))
+            value = cls._round_7_digits(raw_float)
+            # next to some powers of ten (eg. 1e28) 7 digits don't lead back to the same value
+            # when sent again - keep full precision there
+            resent = cast(float, struct.unpack(">f", struct.pack(">f", value))[0])
+            if cls._round_7_digits(resent) != value:
+                return raw_float
+            return value
         except (ValueError, OverflowError):
             # account for 0 and special values
             # ValueError: log10(0.0); ceil(float('nan'))
             # OverflowError: ceil(float('inf'))
             return raw_float
+
+    @staticmethod
+    def _round_7_digits(value: float) -> float:
+        """Round to 7 significant digits."""
+        return round(value, 7 - ceil(log10(abs(value))))
 
     @classmethod
     def to_knx(cls, value: float) -> DPTArray:
